@@ -174,6 +174,8 @@ def patterns(tier: str, seed: int) -> list[dict]:
                                           [3, [[S(2.5), 48] for _ in range(60)]]],
         calls=[[S(rnd.uniform(0, 300)), rnd.randint(1, 48)] for _ in range(80)])
 
+    P.extend(sync_patterns(tier, rnd))
+
     def addm(name: str, **kw) -> None:
         P.append({"kind": "mqtt", "name": "mqtt:" + name, **kw})
 
@@ -199,6 +201,86 @@ def patterns(tier: str, seed: int) -> list[dict]:
             calls.append([t, rnd.randint(1, 48)])
         addm(f"random-open-loop-mean{mean}s", calls=calls)
     return P
+
+
+def sync_patterns(tier: str, rnd: random.Random) -> list[dict]:
+    """Controller sync announcements (I|1F09|003) on the air while frames are offered: the stage between the duty-cycle
+    wrapper and the write-gap semaphore (spec/TxSync.tla).  Announcements arrive 0.3 ms off the 1 ms grid, calls on it,
+    so that a poll and a delivery never share an instant; frames are all 10 bytes, the bucket never runs low."""
+    deep = tier == "thorough"
+    P: list[dict] = []
+
+    def add(name: str, syncs: list, calls: list | None = None, clients: list | None = None, **kw) -> None:
+        sc = {"kind": "serial", "name": "sync:" + name, "syncs": syncs, "settle_s": 3, "timeout_s": 900, **kw}
+        if calls:
+            sc["calls"] = [[c, 10] for c in calls]
+        if clients:
+            sc["clients"] = clients
+        P.append(sc)
+
+    at = 2000                                   # stamped 1000 (cut to ms) + 0.1 s
+    # every edge of the window (at - now just inside / outside 8 ms and 108.8 ms), one caller per run
+    for d in (79, 81, 1087, 1089, 0, -7, 500, 1000, 90, 180, 1080):
+        add(f"edge{d:+d}", [[1003, 1, 1]], [at - d])
+    # the same edges with callers that follow each other closely (they pass on their own 10 ms grids)
+    add("edges-together", [[1003, 1, 1]], [at - d for d in (1089, 1087, 700, 81, 79, 0)])
+    # two controllers whose windows chain
+    add("two-chained", [[1003, 1, 2], [1503, 2, 1]], [1600, 2400, 2990, 3600])
+    # a controller re-announces: its older announcement is forgotten
+    add("re-announced", [[1003, 1, 3], [2003, 1, 30]], [3000, 3500, 30000, 31500])
+    # four controllers: the oldest of the three tracked is pushed out
+    add("four-controllers", [[1003, 1, 6], [1103, 2, 7], [1203, 3, 8], [1303, 4, 9]], [6500, 7500, 8500, 9500, 10500])
+    # an announcement that is no longer pending is dropped by the next one
+    add("expired-dropped", [[1003, 1, 1], [5003, 2, 1]], [1500, 5500, 7000])
+    # remaining = 0 and the largest value
+    add("rem-0-and-max", [[1003, 1, 0], [1503, 2, 0xFFFF]], [1004, 1100, 1600])
+    # a long run: a controller announcing every 185.5 s, a caller every 7.03 s (phases drift through the window)
+    hrs = 2.0 if deep else 0.4
+    n = int(hrs * 3600 / 185.5)
+    add("long-run", [[int(1855000 * k) + 3, 1, 1855] for k in range(n)], clients=[[0, [[70300, 10]] * int(hrs * 3600 / 7.03)]],
+        timeout_s=int(hrs * 3600) + 600)
+    for i in range(24 if deep else 8):
+        srcs = rnd.randint(1, 4)
+        syncs = sorted([rnd.randrange(100, 20000, 10) + 3, rnd.randint(1, srcs), rnd.choice((0, 1, 1, 2, 3, 5, 10))]
+                       for _ in range(rnd.randint(1, 8)))
+        calls = sorted({rnd.randrange(100, 32000, 10) for _ in range(rnd.randint(3, 14))})
+        add(f"random-{i}", [list(x) for x in syncs], calls)
+    return P
+
+
+def judge_sync(results: list[dict], workers: int) -> dict:
+    idx = [i for i, r in enumerate(results) if r.get("sx", {}).get("rx")]
+    items = []
+    for i in idx:
+        r = results[i]
+        items.append({"rx": r["sx"]["rx"], "passes": r["sx"]["passes"],
+                      "calls": [{"id": e["id"], "t": e["t"]} for e in r["ev"] if e["k"] == "call"]})
+    res = tlc.validate_batch("TxSyncTrace", items, cfg="TxSyncTrace.cfg", workers=workers, timeout=900, chunk=40) if items else \
+        {"n": 0, "rejects": [], "states": 0, "wall_s": 0.0}
+    res["index"] = idx
+    return res
+
+
+def model_check_sync(tier: str, workers: int, stats: dict) -> None:
+    jobs = [("MC_TxSync.cfg", "hold"), ("MC_TxSync_w2.cfg", "hold"), ("MC_TxSync_live.cfg", "hold"),
+            ("MC_TxSync_x_collide.cfg", "X_NoTxAtSync"), ("MC_TxSync_x_fifo.cfg", "X_FifoThroughStage")]
+    with ThreadPoolExecutor(3) as ex:
+        results = list(ex.map(lambda j: tlc.run_tlc("MC_TxSync", j[0], workers=max(1, workers // 2), timeout=900), jobs))
+    for (cfg, kind), r in zip(jobs, results):
+        rec = {"module": "MC_TxSync", "cfg": cfg, "distinct_states": r.distinct, "generated": r.states, "depth": r.depth,
+               "violated": r.violated, "wall_s": round(r.wall_s, 1)}
+        stats["mc"].append(rec)
+        if r.errors:
+            raise tlc.MachineryFailure(f"{cfg}: {r.errors[:2]}\n{r.out[-1500:]}")
+        if kind == "hold":
+            if not r.ok:
+                raise tlc.MachineryFailure(f"{cfg}: model property {r.violated} failed\n{r.out[-2500:]}")
+            print(f"TLC {cfg}: {r.distinct} distinct states, the stage's invariants"
+                  f"{' and liveness (every caller passes)' if 'live' in cfg else ''} hold ({r.wall_s:.1f}s)")
+        else:
+            if r.ok:
+                raise tlc.MachineryFailure(f"{cfg}: the sensitivity property {kind} is expected to be refuted and was not")
+            print(f"TLC {cfg}: {kind} refuted as expected (observation about the code as it is)")
 
 
 # ----------------------------------------------------------------------------------------------
@@ -286,7 +368,8 @@ def canary(results: list[dict], workers: int) -> dict:
 
 
 def key_of(clause: str, res: dict) -> str:
-    return f"{clause}|{res['mode']}"
+    # executions with sync announcements on the air are a family of their own (another stage of write_frame is at work)
+    return f"{clause}|{res['mode']}{'+sync' if res.get('sx', {}).get('rx') else ''}"
 
 
 def main(tier: str, replay: str | None) -> None:
@@ -296,6 +379,7 @@ def main(tier: str, replay: str | None) -> None:
         return do_replay(replay, workers)
     stats: dict = {}
     cex = model_check(tier, workers, stats)
+    model_check_sync(tier, workers, stats)
     scs = ([cex] if cex else []) + simulate(300 if tier == "thorough" else 60, chk.seed, stats) + patterns(tier, chk.seed)
     t0 = time.time()
     results = X.run_scenarios(scs, procs=workers)
@@ -342,6 +426,21 @@ def main(tier: str, replay: str | None) -> None:
     for idx, fail in rd["rejects"][:20]:
         r = results[idx]
         chk.model_drift(f"{fail[1]} in scenario {r['name']!r} at event {fail[0]}: {r['ev'][fail[0] - 1]}")
+    rs = judge_sync(results, workers)
+    stats["sync_stage"] = {"executions": rs["n"], "calls": sum(len([e for e in results[i]["ev"] if e["k"] == "call"]) for i in rs["index"]),
+                           "announcements": sum(len(results[i]["sx"]["rx"]) for i in rs["index"]),
+                           "held_back": sum(1 for i in rs["index"] for p in results[i]["sx"]["passes"]
+                                            if p["t"] > next(e["t"] for e in results[i]["ev"] if e["k"] == "call" and e["id"] == p["id"])),
+                           "drift": len(rs["rejects"]), "wall_s": round(rs["wall_s"], 1)}
+    if rs["n"] and not stats["sync_stage"]["held_back"]:
+        raise tlc.MachineryFailure("sync scenarios: no caller was ever held back by an announcement (the stage was not exercised)")
+    print(f"TLC TxSyncTrace: {rs['n']} executions with sync announcements ({stats['sync_stage']['calls']} calls, "
+          f"{stats['sync_stage']['held_back']} held back), {len(rs['rejects'])} differ from TxSync")
+    for k, fail in rs["rejects"][:20]:
+        r = results[rs["index"][k]]
+        chk.model_drift(f"{fail[1]} in scenario {r['name']!r}: call {fail[2]} (entered at "
+                        f"{[e['t'] for e in r['ev'] if e['k'] == 'call' and e['id'] == fail[2]]}, left the stage at "
+                        f"{[p['t'] for p in r['sx']['passes'] if p['id'] == fail[2]]}; announcements {r['sx']['rx'][:6]})")
     # search-based conformance of the small open-loop runs (TLC looks for a model behaviour with these writes)
     cf = X.conform(results, scs, workers)
     stats["conformance"] = {k: v for k, v in cf.items() if k != "index"}
